@@ -267,9 +267,19 @@ def stream_checks(ctx, kf):
     ctx.notes.append("mixed-stream filtering: %d streams x %d selectors x {text,interpreted,compiled,rdump,rdump -n}" % (n_streams, len(sels) * len(ops)))
 
 
+INTERPRETED_ONLY = [("Type.string not in r.zz", False), ("r.zz not in Type.string", False), ("Type.varint not in r.zz", False)]
+
+
 def helper_checks(ctx):
     from flow.record.selector import CompiledSelector, Selector
     D, r = make_record()
+    for e, want in INTERPRETED_ONLY:
+        out = outcome_of(lambda: Selector(e).match(r))
+        ctx.count_case(("typed-notin", e))
+        if out != ("Val", want):
+            ctx.violation("typed matcher against a missing field: %s (interpreted) -> %s, expected %s" % (e, out, want),
+                          dict(kind="helper", expr=e, engine="interpreted", outcome=list(out), expected=want))
+            return
     exprs = [
         ("field_equals(r, ['zz', 's'], ['ABC'])", True), ("field_equals(r, ['zz'], ['abc'])", False),
         ("field_equals(r, ['zz', 'yy', 's'], ['abc'], nocase=False)", True),
@@ -282,6 +292,11 @@ def helper_checks(ctx):
         ("field_equals(r.zz, ['name'], ['init'])", False), ("field_contains(r.zz, ['s'], ['b'])", False),
         ("field_regex(r.zz, ['s'], '.')", False), ("field_equals(r.zz.yy, ['a'], ['b'])", False),
         ("has_field(r.zz, 'a')", False), ("field_equals(r.zz, ['name'], ['init']) or r.s == 'abc'", True),
+        # typed field matchers against a missing field, in every position
+        ("Type.string in r.zz", False), ("Type.string == r.zz", False), ("Type.string != r.zz", False),
+        ("r.zz in Type.string", False), ("r.zz == Type.string", False), ("Type.varint < r.zz", False), ("r.zz >= Type.varint", False),
+        ("Type.string.zz == 'a'", False), ("Type.uri.filename in r.zz", False), ("'abc' in Type.string", True),
+        ("r.zz in Type.string or r.s == 'abc'", True),
         # reserved fields are fields every record has: never skipped
         ("field_contains(r, ['_source'], ['hostB/'])", True), ("field_equals(r, ['zz', '_source'], ['HOSTB/X'])", True),
         ("field_regex(r, ['_source', 'zz'], '^host')", True), ("field_equals(r, ['_version'], [1], nocase=False)", True),
